@@ -56,20 +56,22 @@ static void bn_div_imp(bn_t c, bn_t d, const bn_t a, const bn_t b) {
 
 	/* If |a| < |b|, we're done. */
 	if (bn_cmp_abs(a, b) == RLC_LT) {
+		/* The remainder is computed first: the quotient may be stored over
+		 * one of the operands. */
 		if (bn_sign(a) == bn_sign(b) || bn_is_zero(a)) {
-			if (c != NULL) {
-				bn_zero(c);
-			}
 			if (d != NULL) {
 				bn_copy(d, a);
 			}
+			if (c != NULL) {
+				bn_zero(c);
+			}
 		} else {
+			if (d != NULL) {
+				bn_add(d, a, b);
+			}
 			if (c != NULL) {
 				bn_set_dig(c, 1);
 				bn_neg(c, c);
-			}
-			if (d != NULL) {
-				bn_add(d, a, b);
 			}
 		}
 		return;
@@ -100,20 +102,21 @@ static void bn_div_imp(bn_t c, bn_t d, const bn_t a, const bn_t b) {
 		r->sign = b->sign;
 		bn_trim(r);
 
-		/* We have the quotient in q and the remainder in r. */
-		if (c != NULL) {
-			if ((bn_is_zero(r)) || (bn_sign(a) == bn_sign(b))) {
-				bn_copy(c, q);
-			} else {
-				bn_sub_dig(c, q, 1);
-			}
-		}
-
-		if (d != NULL) {
-			if ((bn_is_zero(r)) || (bn_sign(a) == bn_sign(b))) {
+		/* We have the quotient in q and the remainder in r. The remainder is
+		 * stored first: the quotient may be stored over one of the operands. */
+		if ((bn_is_zero(r)) || (bn_sign(a) == bn_sign(b))) {
+			if (d != NULL) {
 				bn_copy(d, r);
-			} else {
+			}
+			if (c != NULL) {
+				bn_copy(c, q);
+			}
+		} else {
+			if (d != NULL) {
 				bn_sub(d, b, r);
+			}
+			if (c != NULL) {
+				bn_sub_dig(c, q, 1);
 			}
 		}
 	}
